@@ -44,20 +44,25 @@ CMPOPS = {ast.Eq: operator.eq, ast.NotEq: operator.ne, ast.Lt: operator.lt, ast.
           ast.In: lambda a, b: a in b, ast.NotIn: lambda a, b: a not in b}
 SAFE_BUILTINS = {"str": str, "int": int, "len": len, "range": range, "abs": abs, "min": min, "max": max,
                  "bool": bool, "list": list, "tuple": tuple, "set": set, "any": any, "all": all, "sorted": sorted,
-                 "isinstance": isinstance, "True": True, "False": False, "None": None}
+                 "isinstance": isinstance, "True": True, "False": False, "None": None, "type": type, "dict": dict,
+                 "float": float, "hex": hex, "enumerate": enumerate, "zip": zip, "reversed": reversed, "sum": sum,
+                 "Exception": Exception, "ValueError": ValueError, "map": map, "filter": filter}
 SAFE_METHODS = {(str, "find"), (str, "startswith"), (str, "endswith"), (str, "strip"), (str, "split"), (str, "lower"),
                 (str, "upper"), (str, "replace"), (str, "isdigit"), (list, "append"), (list, "index"), (list, "count"),
                 (list, "copy"), (dict, "get"), (dict, "keys"), (dict, "values"), (dict, "items"), (tuple, "index"),
-                (tuple, "count"), (list, "pop"), (list, "extend"), (str, "join"), (str, "format")}
+                (tuple, "count"), (list, "pop"), (list, "extend"), (str, "join"), (str, "format"), (str, "splitlines"), (str, "isnumeric"),
+                (list, "insert"), (list, "remove"), (dict, "pop"), (dict, "update"), (set, "add"), (str, "rstrip"), (str, "lstrip"),
+                (str, "rfind"), (str, "count"), (str, "index"), (list, "reverse"), (list, "sort")}
 
 
 class Evaluator:
-    def __init__(self, func_node, globals_env=None, call_hook=None, max_steps=20000, obj_types=()):
+    def __init__(self, func_node, globals_env=None, call_hook=None, max_steps=20000, obj_types=(), attr_hook=None):
         self.func = func_node
         self.genv = dict(globals_env or {})
         self.call_hook = call_hook       # (name, args, kwargs) -> value, or raises Unsupported
         self.max_steps = max_steps
         self.obj_types = tuple(obj_types)
+        self.attr_hook = attr_hook
 
     def call(self, *args, **kwargs):
         a = self.func.args
@@ -156,6 +161,16 @@ class Evaluator:
         elif isinstance(st, ast.Assert):
             if not self._expr(st.test, env):
                 raise Raised("AssertionError")
+        elif isinstance(st, ast.Try):
+            try:
+                self._block(st.body, env)
+            except Raised:
+                if not st.handlers:
+                    raise
+                self._block(st.handlers[0].body, env)
+            else:
+                self._block(st.orelse, env)
+            self._block(st.finalbody, env)
         elif isinstance(st, ast.Global):
             env.setdefault("\0globals", set()).update(st.names)
         else:
@@ -259,6 +274,8 @@ class Evaluator:
             if isinstance(base, dict) and MODKEY in base:
                 if e.attr in base:
                     return base[e.attr]
+                if self.attr_hook is not None:
+                    return self.attr_hook(base[MODKEY], e.attr)
             if self.obj_types and isinstance(base, self.obj_types) and hasattr(base, e.attr) and not callable(getattr(base, e.attr)):
                 return getattr(base, e.attr)
             raise Unsupported(f"attribute {ast.unparse(e)}")
@@ -271,6 +288,15 @@ class Evaluator:
                 if all(self._expr(c, sub) for c in g.ifs):
                     res.append(self._expr(e.elt, sub))
             return res
+        if isinstance(e, ast.Lambda):
+            params = [a.arg for a in e.args.args]
+            outer = self
+
+            def _lam(*vals):
+                sub = dict(env)
+                sub.update(zip(params, vals))
+                return outer._expr(e.body, sub)
+            return _lam
         raise Unsupported(f"expression {type(e).__name__}: {ast.unparse(e)[:60]}")
 
     def _call(self, e, env):
@@ -295,11 +321,13 @@ class Evaluator:
                 if self.call_hook is not None:
                     return self.call_hook(base[MODKEY] + "." + f.attr, args, kwargs)
                 raise Unsupported(f"call {ast.unparse(f)}")
+            if self.obj_types and isinstance(base, self.obj_types) and hasattr(base, f.attr):
+                return getattr(base, f.attr)(*args, **kwargs)
             for (ty, m) in SAFE_METHODS:
                 if m == f.attr and isinstance(base, ty):
                     try:
                         return getattr(base, m)(*args, **kwargs)
-                    except (ValueError, IndexError, KeyError) as ex:
+                    except (ValueError, IndexError, KeyError, TypeError) as ex:
                         raise Raised(type(ex).__name__)
             raise Unsupported(f"method {f.attr} on {type(base).__name__}")
         if isinstance(f, ast.Name):
@@ -308,7 +336,7 @@ class Evaluator:
             if f.id in self.genv and callable(self.genv[f.id]):
                 return self.genv[f.id](*args, **kwargs)
             if f.id in ("str", "int", "len", "range", "abs", "min", "max", "bool", "list", "tuple", "set", "any", "all",
-                        "sorted", "isinstance"):
+                        "sorted", "isinstance", "type", "dict", "float", "hex", "enumerate", "zip", "reversed", "sum"):
                 try:
                     return SAFE_BUILTINS[f.id](*args, **kwargs)
                 except (ValueError, TypeError) as ex:
